@@ -353,12 +353,12 @@ def profile_c(rng, tier, cfgs):
         mag = rng.choice(['uL-mL', 'mL-L'])
     else:
         mag = rng.choice(['uL-mL', 'mL-L', 'uL-mL'])
-    p = {'op_w': dict(BASE_OPS, hold_slice=0, solution=0.6, solution_from=0.3), 'magnitude': mag, 'round_numbers': rng.random() < 0.6,
+    p = {'op_w': dict(BASE_OPS, hold_slice=0, solution=0.6, solution_from=0.3, drain_fresh=0.8), 'magnitude': mag, 'round_numbers': rng.random() < 0.6,
          'plate_size': 'small', 'cache_policy': 'never',
          # far from every feasibility boundary: far_in, far_out, negative, zero only
          # plus requests a little (1e-3 relative) inside / outside the source boundary: far above every replica's rounding,
          # judged only where every replica's own model is sure of the decision
-         'q_w': [12, 1.0, 0, 1.0, 1.2, 0.3, 0.3, 0], 'near_rel': F(1, 10 ** 3), 'fill_w': [10, 1.2, 0, 0, 0, 0, 0, 1, 0.2, 0.2],
+         'q_w': [12, 1.0, 0.5, 1.0, 1.2, 0.3, 0.3, 1.0], 'near_rel': F(1, 10 ** 3), 'fill_w': [10, 1.2, 0, 0, 0, 0, 0, 1, 0.2, 0.2],
          'cap_w': [3, 6, 0, 0, 0.6, 0.2], 'dil_w': [8, 3, 1.5, 0, 0], 'stale_p': 0.1, 'min_conc_base': F(1, 10 ** 4),
          'n_events': rng.randint(8, 18 if tier == 'quick' else 28)}
     p['p_dilute_stock'] = 0.6
